@@ -533,9 +533,20 @@ def one_call(ctx, case, kind, st, data_bases, hold, objs, run, r_idx, sess, m, s
             if not same and first_bad is None:
                 first_bad = {"assigned": repr(bad), "raised": raised, "flag_before": repr(before_flag), "flag_after": repr(now)}
             refused_ok = refused_ok and bool(same)
-        ctx.oracle("an assignment to stop_training that raises leaves the flag (public property) unchanged", bool(refused_ok), ctx.current_case,
-                   detail=first_bad, sig=f"{kind}/refused-stop-request",
-                   theorem="C12_refused_request_leaves_flag (which objects are refused is not judged; C12_sticky / C12_session_stopped take the flag at entry as given)")
+            # audit 3 (B4): whatever the raising assignment left (partial effect, not constrained), the caller puts its flag back with a
+            # plain bool, so the probe cannot change what the call that follows finds at entry
+            st.stop_training = bool(before_flag)
+        # audit 3 (B4): non-bool objects are undocumented input and WHAT a raising assignment leaves behind is a partial effect the
+        # property does not speak about (a store-then-raise setter honours every request): no property-level verdict, and the run that
+        # follows is judged from the flag it actually finds at entry.  Kept as an AUXILIARY point (never a replayable violation): it is the
+        # tie between the model's notion of "a stop is requested" (C12_refused_request_leaves_flag: a refused assignment is no request) and
+        # the flag of the code, on which the property's "a run started with a stop already requested" rests; the stored change M3_C12_1
+        # (store, then raise) is reported through it as `no-failing-input-found`
+        ctx.info(f"{kind}/refused-stop-request: an assignment to stop_training that raises leaves the flag (public property) unchanged",
+                 bool(refused_ok), True)
+        ctx.point("an assignment to stop_training that raises leaves the flag (public property) unchanged (model-code tie of 'requested')", "aux",
+                  bool(refused_ok), True, ctx.current_case, exact=True, sig=f"{kind}/refused-stop-request",
+                  theorem="C12_refused_request_leaves_flag (which objects are refused is not judged; C12_sticky / C12_session_stopped take the flag at entry as given)")
     # ---- the option objects of this call
     fl, it = sess.get("fl") or qc.Flags(None), sess.get("it") or qc.Ints(None)
     fam = int_family(getattr(it, "iseed", None))
@@ -1197,6 +1208,8 @@ def gen_asg_cases(rng, count):
         pts = [p for p in ref_points(start, epochs, nb) if p[0] != "mid"]
         mode = rng.choice(["truthy", "truthy", "falsy"])
         vals = TRUTHY_VALS if mode == "truthy" else FALSY_VALS
+        if rng.random() < 0.4:
+            vals = vals[:1]  # audit 3 (B4): Python bool only - the cases whose protocol points stay at property level
         assigns = []
         for p in rng.sample(pts, min(len(pts), rng.choice([1, 1, 2, 3]))):
             assigns.append([rng.choice(cbs), p, list(rng.choice(vals)), rng.random() < 0.6])
@@ -1240,12 +1253,27 @@ def asg_case(ctx, case):
     log = [en for en in rec.log if en[0] != "sched"]
     calls = [en for en in log if en[0] == "call"]
     # ---- effect of every executed assignment (independent of the model; any exception type is a refusal)
+    # audit 3 (B4): the property speaks about stop REQUESTS (`stop_training = True`, a Python bool).  Assigning another object is an
+    # undocumented input, and what an assignment that raises leaves behind is a partial effect: in a case that offers a non-bool object the
+    # protocol points below are recorded only (ctx.info); the cases in which every assignment is a Python bool keep the property level
+    all_bool = all(x[2][0] == "bool" for x in a["assigns"])
+    ctx.count(f"asg_case:all assignments Python bool={all_bool}")
+
+    def judged(text, ok, detail=None, sig_=None, theorem=None):
+        if all_bool:
+            return ctx.oracle(text, ok, case, detail=detail, sig=sig_, theorem=theorem)
+        return ctx.info(f"{sig_} (case offers a non-bool object): {text}", bool(ok), True)
+
     bad_ref = next((o for o in rec.outcomes if o["raised"] and o["after"] != o["before"]), None)
-    ctx.oracle("an assignment to stop_training made by a callback that raises leaves the flag unchanged", bad_ref is None, case,
-               detail=bad_ref, sig=f"{sig}/refused-assignment-frame", theorem=thm)
-    bad_acc = next((o for o in rec.outcomes if not o["raised"] and o["after"] != bool(py_val(o["val"]))), None)
-    ctx.oracle("an accepted assignment makes the flag the truth value of the assigned object (no spurious request)", bad_acc is None, case,
+    # audit 3 (B4): which partial effect a raising assignment leaves is not constrained by the property: recorded only
+    ctx.info(f"{sig}/refused-assignment-frame: an assignment to stop_training made by a callback that raises leaves the flag unchanged",
+             bad_ref is None, True)
+    # audit 3 (B4): property level for Python bool values only; the value a non-bool object is taken as, when accepted, is recorded
+    bad_acc = next((o for o in rec.outcomes if o["val"][0] == "bool" and not o["raised"] and o["after"] != bool(py_val(o["val"]))), None)
+    ctx.oracle("an accepted assignment of a Python bool makes the flag that bool (no spurious request)", bad_acc is None, case,
                detail=bad_acc, sig=f"{sig}/accepted-assignment-value", theorem=thm)
+    bad_acc_o = next((o for o in rec.outcomes if o["val"][0] != "bool" and not o["raised"] and o["after"] != bool(py_val(o["val"]))), None)
+    ctx.info(f"{sig}/accepted-assignment-value (non-bool object): the flag becomes the truth value of the assigned object", bad_acc_o is None, True)
     for o in rec.outcomes:
         ctx.count(f"asg:{o['val'][0]}({bool(py_val(o['val']))})@{o['ev'][0]}:" + ("refused" if o["raised"] else "accepted") +
                   ("" if o["catches"] else ",uncaught"))
@@ -1259,14 +1287,15 @@ def asg_case(ctx, case):
         # ---- a run that returned: protocol by EFFECT (a refused assignment is not a request; an accepted true value is)
         exp_events, exp_stop = ref_events(start, epochs, nb, False, requested)
         exp_ucalls = [[fid_of(i, ev[0]), i, ev] for ev in exp_events for i in cbs]
-        ctx.oracle("event trace of a run whose callbacks assign to stop_training == protocol reference for the requests that were ACCEPTED",
-                   rec.ucalls == exp_ucalls, case, detail={"impl": rec.ucalls[:40], "expected": exp_ucalls[:40],
-                                                          "outcomes": rec.outcomes[:6]},
-                   sig=f"{sig}/protocol", theorem="C12_refused_request_leaves_flag, C12_protocol, C12_stop_in_batch, C12_stop_at_epoch_end")
-        ctx.oracle("final flag == some accepted request", final["stop"] == exp_stop, case, detail={"impl": final["stop"], "expected": exp_stop},
-                   sig=f"{sig}/final-flag", theorem="C12_refused_request_leaves_flag, C12_sticky")
-        ctx.oracle("one optimizer step per batch begun", final["ver"] == sum(1 for ev in exp_events if ev[0] == "bs"), case,
-                   sig=f"{sig}/opt-count", theorem="C12_param_window")
+        # audit 3 (B4): `judged` - property level when every assignment is a Python bool, recorded only otherwise (the reference assumes
+        # "a refused non-bool assignment is not a request and leaves the flag")
+        judged("event trace of a run whose callbacks assign to stop_training == protocol reference for the requests that were ACCEPTED",
+               rec.ucalls == exp_ucalls, detail={"impl": rec.ucalls[:40], "expected": exp_ucalls[:40], "outcomes": rec.outcomes[:6]},
+               sig_=f"{sig}/protocol", theorem="C12_refused_request_leaves_flag, C12_protocol, C12_stop_in_batch, C12_stop_at_epoch_end")
+        judged("final flag == some accepted request", final["stop"] == exp_stop, detail={"impl": final["stop"], "expected": exp_stop},
+               sig_=f"{sig}/final-flag", theorem="C12_refused_request_leaves_flag, C12_sticky")
+        judged("one optimizer step per batch begun", final["ver"] == sum(1 for ev in exp_events if ev[0] == "bs"),
+               sig_=f"{sig}/opt-count", theorem="C12_param_window")
         ctx.oracle("fit raised although no callback let an exception out", True, case, sig=f"{sig}/exception", theorem="C12_exception_trace")
         ctx.count("asg_run:returned" + (",although a refused assignment was not caught" if escaped else ""))
     else:
@@ -1277,9 +1306,9 @@ def asg_case(ctx, case):
         # ---- flag persistence: what the aborted call leaves is the OR of the requests made before the exception; the next call on the
         # object is silent iff it is set, a complete fresh run otherwise
         exp_flag = bool(eff) or any((e - start) * nb + b < rec.opt_steps for e, b in mids)
-        ctx.oracle("flag left by a call that an exception escaped from == OR of the requests accepted before it", final["stop"] == exp_flag,
-                   case, detail={"impl": final["stop"], "expected": exp_flag, "outcomes": rec.outcomes[:6]}, sig=f"{sig}/flag-after-escape",
-                   theorem="C12_exception_trace, C12_sticky")
+        # audit 3 (B4): a call an exception escaped from is not a training run of the property; the flag it leaves is recorded only
+        ctx.info(f"{sig}/flag-after-escape: flag left by a call that an exception escaped from == OR of the requests accepted before it",
+                 final["stop"] == exp_flag, True)
         rec2 = _AsgRecorder([], [])
         r["hold"].rec = rec2
         rec2.hashes[param_hash(st)] = 0
@@ -1302,21 +1331,34 @@ def asg_case(ctx, case):
             ms = ctx.driver.call("c12.set_stop", val=o["val"], flag=o["before"])
             ctx.count(f"setter:{o['val'][0]}:model={'refused' if ms['error'] else 'accepted'},impl={'refused' if o['raised'] else 'accepted'}")
             if bool(ms["error"]) == bool(o["raised"]):
-                ctx.point("flag after `nn_state.stop_training = v` inside a handler", "property", o["after"], ms["stop"], case, exact=True,
-                          sig=f"{sig}/setter-flag", theorem=thm)
+                if o["val"][0] == "bool" and not o["raised"]:
+                    ctx.point("flag after `nn_state.stop_training = v` inside a handler", "property", o["after"], ms["stop"], case, exact=True,
+                              sig=f"{sig}/setter-flag", theorem=thm)
+                else:
+                    # audit 3 (B4): non-bool object / refused assignment: undocumented input, partial effect - recorded only
+                    ctx.info(f"{sig}/setter-flag (non-bool object or refused): flag after `nn_state.stop_training = v` inside a handler",
+                             o["after"], ms["stop"])
         if agree and "abort" not in m and err is None:
             L = len(cbs)
             groups = [calls[k:k + L] for k in range(0, len(calls), L)]
-            ctx.point("events (callbacks assigning to stop_training)", "property", [g[0][2] for g in groups], m["events"], case, exact=True,
-                      sig=f"{sig}/events", theorem="C12_refused_request_leaves_flag, C12_protocol")
-            ctx.point("log (callbacks assigning to stop_training)", "property", log, [en for en in strip_model_log(m["log"]) if en[0] != "sched"],
-                      case, exact=True, sig=f"{sig}/log", theorem="C12_refused_request_leaves_flag, C12_sticky, C12_param_window")
-            ctx.point("final (callbacks assigning to stop_training)", "property", final, {"stop": m["stop"], "ver": m["ver"], "sched": m["sched"]},
-                      case, exact=True, sig=f"{sig}/final", theorem="C12_refused_request_leaves_flag, C12_sticky")
+            m_log = [en for en in strip_model_log(m["log"]) if en[0] != "sched"]
+            m_final = {"stop": m["stop"], "ver": m["ver"], "sched": m["sched"]}
+            if all_bool:
+                ctx.point("events (callbacks assigning to stop_training)", "property", [g[0][2] for g in groups], m["events"], case, exact=True,
+                          sig=f"{sig}/events", theorem="C12_refused_request_leaves_flag, C12_protocol")
+                ctx.point("log (callbacks assigning to stop_training)", "property", log, m_log,
+                          case, exact=True, sig=f"{sig}/log", theorem="C12_refused_request_leaves_flag, C12_sticky, C12_param_window")
+                ctx.point("final (callbacks assigning to stop_training)", "property", final, m_final,
+                          case, exact=True, sig=f"{sig}/final", theorem="C12_refused_request_leaves_flag, C12_sticky")
+            else:
+                # audit 3 (B4): the case offers a non-bool object (the model: refused, not a request, flag left): recorded only
+                ctx.info(f"{sig}/events (case offers a non-bool object)", [g[0][2] for g in groups], m["events"])
+                ctx.info(f"{sig}/log (case offers a non-bool object)", log, m_log)
+                ctx.info(f"{sig}/final (case offers a non-bool object)", final, m_final)
         elif agree and "abort" in m and err is not None:
             ab = m["abort"]
-            ctx.point("flag left when the exception escaped from fit", "property", final["stop"], ab["stop"], case, exact=True,
-                      sig=f"{sig}/abort-flag", theorem="C12_exception_trace")
+            # audit 3 (B4): the flag after an exception escaped from fit - not a training run of the property: recorded only
+            ctx.info(f"{sig}/abort-flag: flag left when the exception escaped from fit", final["stop"], ab["stop"])
             # what has happened when the exception escapes (no later event, updates made) is not something the property speaks about:
             # informational counters only
             ctx.count(f"escape:handler calls seen as in the model's abort log={[[c[1], c[2]] for c in calls] == ab['calls']}")
@@ -1433,8 +1475,9 @@ def cbl_case(ctx, case):
         raised.append(err)
         offered_other = op[0] in ("set", "insert", "append") and not isinstance(op[-1], int)
         ctx.count(f"cblist_op:{op[0]}{'(non-callback)' if offered_other else ''}:{'refused/' + err if err else 'accepted'}")
-    ctx.oracle("a container operation that raises leaves the contents of the CallbackList unchanged", frame_ok, case, detail=first_bad,
-               sig=f"{sig}/refused-op-frame", theorem="C12_container_ops_dispatch")
+    # audit 3 (B2): the CallbackList container API (__setitem__ / __delitem__ / __getitem__ / insert / __add__) is not in C12's text (fit
+    # only iterates the container); what a raising operation leaves behind is a partial effect: recorded only
+    ctx.info(f"{sig}/refused-op-frame: a container operation that raises leaves the contents of the CallbackList unchanged", frame_ok, True)
     final_ids = contents(cl)
     gets = []
     for k in a["gets"]:
@@ -1443,15 +1486,19 @@ def cbl_case(ctx, case):
         except Exception:  # noqa: BLE001
             gets.append("refused")
     ref_gets = [final_ids[k] if -len(final_ids) <= k < len(final_ids) else "refused" for k in a["gets"]]
-    ctx.oracle("cl[k] reads position k of list(cl) (negative k from the end; outside the range refused), len(cl) == len(list(cl))",
-               gets == ref_gets and len(cl) == len(final_ids), case, detail={"contents": final_ids, "k": a["gets"], "cl[k]": gets, "len": len(cl)},
-               sig=f"{sig}/getitem-consistent", theorem="C12_container_ops")
+    # audit 3 (B2): __getitem__ / __len__ are container API the property never mentions (fit calls neither): recorded only
+    try:
+        n_cl = len(cl)
+    except Exception:  # noqa: BLE001
+        n_cl = "refused"
+    ctx.info(f"{sig}/getitem-consistent: cl[k] reads position k of list(cl) (negative k from the end; outside the range refused), "
+             "len(cl) == len(list(cl))", gets == ref_gets and n_cl == len(final_ids), True)
     # ---- a fit given the container: dispatch order == contents, whatever the history of the container
     err = simple_fit(st, rec, data, bases, a, cl)
     nb = -(-a["N"] // a["B"])
-    ctx.oracle("fit raised when given a CallbackList edited through its container API", err is None, case,
-               detail=(None if err is None else {"error": f"{type(err).__name__}: {err}", "contents": final_ids}),
-               sig=f"{sig}/fit-exception", theorem="C12_container_ops, C12_container_ops_dispatch")
+    # audit 3 (B2): whether the container ends up holding only callbacks after non-callbacks were offered to it / after its API raised is
+    # container-API behaviour outside the property: a fit that raises on such a container is recorded only
+    ctx.info(f"{sig}/fit-exception: fit given a CallbackList edited through its container API returns", err is None, True)
     # the plain-list reference refuses a non-callback item and an index outside the range; which EXCEPTION is raised is not compared
     ref_refused = []
     cur = list(a["init"])
@@ -1485,8 +1532,8 @@ def cbl_case(ctx, case):
                    seen == [[i, ev] for ev in exp_events for i in final_ids], case,
                    detail={"contents": final_ids, "calls": seen[:30]}, sig=f"{sig}/dispatch-is-contents", theorem="C12_container_ops_dispatch, C12_dispatch_order")
         if same_refusals:
-            ctx.oracle("contents after the operation sequence == the same operations on a plain list", final_ids == cur, case,
-                       detail={"impl": final_ids, "expected": cur}, sig=f"{sig}/contents", theorem="C12_container_ops")
+            # audit 3 (B2): list semantics of the container operations is not in C12's text: recorded only
+            ctx.info(f"{sig}/contents: contents after the operation sequence == the same operations on a plain list", final_ids, cur)
     if ctx.driver is not None:
         item = lambda it: it if isinstance(it, int) else None  # noqa: E731
         mops = [[op[0], op[1], item(op[2])] if op[0] in ("set", "insert") else [op[0], item(op[1])] if op[0] == "append" else op
@@ -1496,14 +1543,18 @@ def cbl_case(ctx, case):
         ctx.count(f"cblist:refused-or-not as in the model={m_same}")
         ctx.count(f"cblist:exception types as in the model={raised == m['errors']}")
         if m_same:
-            ctx.point("len(cl), list(cl) after the operation sequence", "aux", [len(cl), final_ids], [len(m["final"]), m["final"]], case, exact=True,
-                      sig=f"{sig}/contents-model", theorem="C12_container_ops")
-            ctx.point("cl[k]", "aux", gets, [g if isinstance(g, int) else "refused" for g in m["gets"]], case, exact=True,
-                      sig=f"{sig}/getitem", theorem="C12_container_ops")
-            if err is None:
-                first = [c[1] for c in rec.log if c[0] == "call" and c[2] == ["ts"]]
-                ctx.point("callbacks fit dispatches to (order) after the container operations", "property", first, m["dispatched"], case,
-                          exact=True, sig=f"{sig}/dispatched", theorem="C12_container_ops_dispatch, C12_callbacks_container")
+            # audit 3 (B2): the model's container operations against the code: container API outside the property, recorded only
+            ctx.info(f"{sig}/contents-model: len(cl), list(cl) after the operation sequence", [n_cl, final_ids], [len(m["final"]), m["final"]])
+            ctx.info(f"{sig}/getitem: cl[k]", gets, [g if isinstance(g, int) else "refused" for g in m["gets"]])
+        if err is None:
+            first = [c[1] for c in rec.log if c[0] == "call" and c[2] == ["ts"]]
+            # audit 3 (B2): property level against the IMPLEMENTATION's own contents (iteration order of the real container) - independent
+            # of what the container operations did; the comparison with the MODEL's contents depends on their semantics: recorded only
+            ctx.point("callbacks fit dispatches to (order) == the callbacks the container holds (its iteration order)", "property", first,
+                      final_ids, case, exact=True, sig=f"{sig}/dispatched", theorem="C12_container_ops_dispatch, C12_callbacks_container")
+            if m_same:
+                ctx.info(f"{sig}/dispatched-model: callbacks fit dispatches to (order) == the model's contents after the operations",
+                         first, m["dispatched"])
     ctx.case({k: v for k, v in case.items() if k != "dseed"}, nontrivial=len(final_ids) >= 2 or any(raised),
              sample={"init": a["init"], "ops": a["ops"][:4], "final": final_ids})
 
